@@ -744,7 +744,8 @@ func (stmt *Statement) SelectAndOmitColumns(requireCreate, requireUpdate bool) (
 	}
 
 	if stmt.Schema != nil {
-		for _, field := range stmt.Schema.FieldsByName {
+		// FieldsByName holds one field per Go name: an embedded field may share its name with another field
+		for _, field := range stmt.Schema.Fields {
 			name := field.DBName
 			if name == "" {
 				// without a column only a relation is addressed by its field name; the name of an
@@ -753,6 +754,9 @@ func (stmt *Statement) SelectAndOmitColumns(requireCreate, requireUpdate bool) (
 					continue
 				}
 				name = field.Name
+			} else if stmt.Schema.FieldsByDBName[name] != field {
+				// the column belongs to another field that takes precedence
+				continue
 			}
 
 			if requireCreate && !field.Creatable {
